@@ -64,12 +64,24 @@ func checkActions(c *Ctx, bounds bool) error {
 			}
 			if bounds {
 				// variant A (no _onBounds) and variant B (with)
+				var anyRules, nilSeed uint64
+				if r.Chance(1, 3) && !hasStarF(pc.G) {
+					// some rules are typed `any`, and about half of their
+					// actions record the call and return an untyped nil: the
+					// call to _onBounds does not depend on the result's value
+					for ri := range pc.G.Rules {
+						if ri < 64 && r.Chance(1, 2) {
+							anyRules |= 1 << uint(ri)
+						}
+					}
+					nilSeed = 1 + uint64(r.Intn(1<<30))
+				}
 				pa := *pc
-				pa.Opt = gram.HarnessOpt{Bounds: false}
+				pa.Opt = gram.HarnessOpt{Bounds: false, AnyRules: anyRules, NilSeed: nilSeed}
 				pa.Files = nil
 				pa.prepare()
 				pb := *pc
-				pb.Opt = gram.HarnessOpt{Bounds: true}
+				pb.Opt = gram.HarnessOpt{Bounds: true, AnyRules: anyRules, NilSeed: nilSeed}
 				pb.Files = nil
 				pb.prepare()
 				cases = append(cases, &pa, &pb)
@@ -149,7 +161,7 @@ func actionsRunBatch(c *Ctx, r *rng.R, b *run.Batch, cases []*PCase, bounds bool
 			}
 		}
 		nSent := len(ws)
-		if bounds && pc.Opt.Bounds && pc.G.HasErr() && !hasStarF(pc.G) {
+		if bounds && pc.Opt.Bounds && pc.G.HasErr() && !hasStarF(pc.G) && pc.Opt.NilSeed == 0 {
 			// non-sentences: recovery discards part of the stack, later
 			// reductions reach below the recovery point
 			alpha := pc.G.Alphabet()
@@ -232,7 +244,10 @@ func actionsRunBatch(c *Ctx, r *rng.R, b *run.Batch, cases []*PCase, bounds bool
 		if hasErrTok {
 			c.Ev.Count("inputs_with_shifted_ERROR_tokens", 1)
 		}
-		if bounds && pc.Opt.Bounds && !hasStarF(pc.G) {
+		if bounds && pc.Opt.Bounds && pc.Opt.NilSeed != 0 {
+			c.Ev.Count("parses_with_nil_returning_actions", 1)
+		}
+		if bounds && pc.Opt.Bounds && !hasStarF(pc.G) && pc.Opt.NilSeed == 0 {
 			// (a `x*!` list leaves out discarded elements that its bounds
 			// still cover: the monitor cannot see those children)
 			n, why := boundsSelfConsistent(res.Events)
